@@ -714,3 +714,10 @@ func (t *TTY) Audit() []string {
 	}
 	return out
 }
+
+// Modes reports bracketed paste and mouse reporting (?1000) as the terminal has them now.
+func (t *TTY) Modes() (paste, mouse bool) {
+	t.mu.Lock()
+	defer t.mu.Unlock()
+	return t.Paste, t.Mouse[1000]
+}
